@@ -2,9 +2,26 @@
    respected", proved for the interpreter model of theories/Interp.v, for EVERY chart, every code
    semantics (exec_code / eval_code) and every listener behaviour (emit).
 
-   STATUS: all five statements (C05_insert, C05_which, C05_consume, C05_step with corollary
-   C05_conservation, C05_delay) are proved in full; nothing is weakened, nothing is refuted.
-   See the summary at the end of the file. *)
+   STATUS: all five statements are proved in full; nothing is weakened, nothing is refuted, no
+   `_partial` theorem.  Main theorems (all "Closed under the global context"):
+
+     C05_insert            _queue_event: position of the new entry (FIFO), frame, invariant
+     C05_which             _select_event: internal head if due, else external head if due; minimality
+     C05_consume           consuming = what _select_event returns, removes exactly that head
+     C05_step              one execute_once (ANY outcome): invariant kept, at most one pop (the
+                           selected event, due <= now, signalled to the listeners exactly then),
+                           then inserts of the internal events sent, in order; link with the result
+     C05_step_gen          the same without assuming the invariant (structure only)
+     C05_conservation      consumed + pending' = pending + sent internal  (Permutation and lengths)
+     C05_conservation_run  the same over any sequence of queue()/execute_once() calls
+     C05_delay             consumed entry is due; some entry due <-> an event is considered
+     C05_delay_progress    (extra) a due entry is never ignored: the step is a non-empty macro step
+     compute_steps_considers   "considered" = handed to _select_transitions
+     Example.*             non-vacuity by computation
+
+   Remarks on the model (not defects): queue_event files a Meta-kind event in the external queue
+   (Python would too: `not isinstance(event, InternalEvent)`); raise_event ignores External events
+   (Python raises ValueError; send/notify never build one). *)
 From Coq Require Import List ZArith Lia Bool Sorted Permutation.
 From Sismic Require Import Base Chart Interp.
 From SismicProofs Require Import FrameLib.
@@ -152,6 +169,9 @@ Lemma external_class a b : e_kind a <> Internal -> e_kind b <> Internal -> ext_f
 Proof. intros Ha Hb. apply ext_flag_external in Ha, Hb. congruence. Qed.
 
 Definition opt_list {A} (o : option A) : list A := match o with Some a => [a] | None => [] end.
+
+Lemma list_neq_cons {A} (a : A) (l : list A) : l <> a :: l.
+Proof. intros H. apply (f_equal (@length _)) in H. simpl in H. lia. Qed.
 
 Section C05.
   Variable ctx : Type.
@@ -308,7 +328,8 @@ Section C05.
     (forall e, select_event i = Some e -> e_kind e <> Internal ->
        Forall (fun te => (due te > now)%Z) (i_iq i) /\
        exists t q, i_eq i = (t, e) :: q /\ (t <= now)%Z /\ Forall (fun te => (t <= due te)%Z) q).
-  Proof.
+  Proof using.
+    clear X exec_code eval_code emit sc.
     intros (Si & Se & Ki & Ke) now. unfold select_event. fold now.
     split; [|split; [|split; [|split]]].
     - intros e. destruct (due_head now (i_iq i)) as [e1|] eqn:D1.
@@ -408,11 +429,11 @@ Section C05.
     pop now iq eq c iq1 eq1 -> (c = None <-> iq1 = iq /\ eq1 = eq).
   Proof.
     intros P. destruct P as [|te q Hq L|te q Hq L D].
-    - tauto.
+    - split; auto.
     - split; [discriminate|]. intros [A _]. exfalso.
-      rewrite A in Hq. apply (f_equal (@length _)) in Hq. simpl in Hq. lia.
+      rewrite A in Hq. exact (list_neq_cons _ _ Hq).
     - split; [discriminate|]. intros [_ A]. exfalso.
-      rewrite A in Hq. apply (f_equal (@length _)) in Hq. simpl in Hq. lia.
+      rewrite A in Hq. exact (list_neq_cons _ _ Hq).
   Qed.
 
   Lemma pop_select now (i : ist) c iq1 eq1 :
@@ -931,7 +952,7 @@ Section C05.
 
   (* ================================================================ C05_delay *)
   Lemma Q_inv_set_time now (i : ist) : Q_inv i <-> Q_inv (set_time now i).
-  Proof. unfold Q_inv. simpl. tauto. Qed.
+  Proof. unfold Q_inv. simpl. apply iff_refl. Qed.
 
   (* (a) whatever a step removes is due at the step time;
      (b) an entry with due <= step time exists (in either queue) iff _select_event returns an event
